@@ -862,6 +862,68 @@ func checkC11(p *core.Program, r *core.Report) {
 				"the output file is created (and truncated) before the proving system has been loaded: converting a file in place (--output naming the input) destroys it and the command fails with EOF")
 		}
 	}
+	// the persisting commands persist on every success path: a `return nil` that is not preceded by a writer call (an
+	// "already up to date" / "already present" shortcut) leaves whatever the output path held before — not the system the
+	// command was asked to write
+	for _, c := range cliCommands(p) {
+		if c.Action.Node == nil || !(c.Name == "setup" || c.Name == "import-setup" || c.Name == "convert-to-raw") {
+			continue
+		}
+		info := c.Pkg.TypesInfo
+		g := flow.NewGraph(c.Action)
+		var wlocs []flow.Loc
+		ast.Inspect(c.Action.Node, func(n ast.Node) bool {
+			call, ok := n.(*ast.CallExpr)
+			if !ok {
+				return true
+			}
+			fn, _ := flow.Callee(info, call).(*types.Func)
+			if fn == nil {
+				return true
+			}
+			isWriter := writerObjs[fn.Origin()]
+			if !isWriter && fn.Pkg() == c.Pkg.Types {
+				// a helper of package main that contains a writer call (saveSystem(system, path))
+				if u, ok := indexFuncs(p).decls[fn]; ok {
+					ast.Inspect(u.Node, func(m ast.Node) bool {
+						if c2, ok := m.(*ast.CallExpr); ok {
+							if f2, _ := flow.Callee(u.Pkg.TypesInfo, c2).(*types.Func); f2 != nil && writerObjs[f2.Origin()] {
+								isWriter = true
+							}
+						}
+						return true
+					})
+				}
+			}
+			if isWriter {
+				if l, ok := g.Locate(call); ok {
+					wlocs = append(wlocs, l)
+				}
+			}
+			return true
+		})
+		if len(wlocs) == 0 {
+			continue // reported by the floor / the per-site rule
+		}
+		var bad []string
+		nSucc := 0
+		for _, rt := range g.Returns() {
+			if !returnIsNilError(info, rt.Ret) {
+				continue
+			}
+			nSucc++
+			dom := false
+			for _, wl := range wlocs {
+				if g.LocDominates(wl, rt.Loc) {
+					dom = true
+				}
+			}
+			if !dom {
+				bad = append(bad, "success return at "+p.Pos(rt.Ret.Pos())+" is reachable without writing the system")
+			}
+		}
+		r.Check(len(bad) == 0, "O11.3", "main.cmd:"+c.Name+": every success path writes the system", p.Pos(c.Lit.Pos()), fmt.Sprintf("%d success return(s), each dominated by the writer call", nSucc), strings.Join(bad, "; "))
+	}
 	r.Count("CLI write sites", nWrite)
 	r.Count("CLI read sites", nRead)
 	r.Floor("CLI write sites", 1)
